@@ -321,6 +321,7 @@ def check_index(ctx, case):
                         singles[i, j] = pe.Corr([None if (a.content[t] is None or (i, j, t) in holes) else a.content[t][i, j] for t in range(T)])
                 exp = [None if (a.content[t] is None or any(h[2] == t for h in holes)) else a.content[t] for t in range(T)]
                 res = pe.Corr(singles)
+                req = {'method': 'ctor_matrix', 'cs': [[enc_corr(singles[i, j]) for j in range(N)] for i in range(N)]}
             elif args['form'] == 'array3d':
                 full = [t for t in range(T) if a.content[t] is not None]
                 exp = [a.content[t] for t in full]
